@@ -2,6 +2,7 @@ package hz
 
 import (
 	"fmt"
+	"strings"
 	"sync"
 
 	db "github.com/tendermint/tm-db"
@@ -13,15 +14,66 @@ type CrashSignal struct{ Write int }
 // WriteCounter is shared by the three wrapped databases of one node so that writes are
 // numbered in program order across them.
 type WriteCounter struct {
-	mu      sync.Mutex
-	armed   bool
-	n       int
-	crashAt int // crash right after the crashAt-th write completes (1-based); 0 = never
+	mu         sync.Mutex
+	armed      bool
+	n          int
+	crashAt    int // crash right after the crashAt-th write completes (1-based); 0 = never
 	afterLabel string
 	afterN     int // die after the afterN-th write whose label has the prefix (0 or 1 = the first)
 	seenLabel  int
-	log     []string
-	dead    bool
+	log        []string
+	dead       bool
+	// scheduler gate for the background snapshot goroutine (C29): reads of the snapshot metadata database block while the
+	// gate is closed; it opens when the state tree of the NEXT block has been saved (first state batch after an app batch)
+	gate    chan struct{}
+	gateApp bool
+}
+
+// ArmGate closes the gate (call right before the Commit whose snapshot is to start late).
+func (w *WriteCounter) ArmGate() {
+	w.mu.Lock()
+	defer w.mu.Unlock()
+	if w.gate == nil {
+		w.gate = make(chan struct{})
+		w.gateApp = false
+	}
+}
+
+// ReleaseGate opens the gate unconditionally.
+func (w *WriteCounter) ReleaseGate() {
+	w.mu.Lock()
+	defer w.mu.Unlock()
+	if w.gate != nil {
+		close(w.gate)
+		w.gate = nil
+	}
+}
+
+func (w *WriteCounter) GateArmed() bool {
+	w.mu.Lock()
+	defer w.mu.Unlock()
+	return w.gate != nil
+}
+
+func (w *WriteCounter) gateWait() {
+	w.mu.Lock()
+	g := w.gate
+	w.mu.Unlock()
+	if g != nil {
+		<-g
+	}
+}
+
+func (w *WriteCounter) gateSee(label string) {
+	if w.gate == nil {
+		return
+	}
+	if strings.HasPrefix(label, "app:batch") {
+		w.gateApp = true
+	} else if w.gateApp && strings.HasPrefix(label, "state:batch") {
+		close(w.gate)
+		w.gate = nil
+	}
 }
 
 func (w *WriteCounter) Arm(crashAt int) {
@@ -56,6 +108,7 @@ func (w *WriteCounter) before() {
 // after is called after a write was applied.
 func (w *WriteCounter) after(label string) {
 	w.mu.Lock()
+	w.gateSee(label)
 	if !w.armed {
 		w.mu.Unlock()
 		return
@@ -135,6 +188,26 @@ func (c *CrashDB) DeleteSync(k []byte) error {
 	err := c.DB.DeleteSync(k)
 	c.wc.after(c.name + ":del:" + keyLabel(k))
 	return err
+}
+
+// reads of the snapshot metadata database pass the scheduler gate
+func (c *CrashDB) Get(k []byte) ([]byte, error) {
+	if c.name == "snap" {
+		c.wc.gateWait()
+	}
+	return c.DB.Get(k)
+}
+func (c *CrashDB) ReverseIterator(start, end []byte) (db.Iterator, error) {
+	if c.name == "snap" {
+		c.wc.gateWait()
+	}
+	return c.DB.ReverseIterator(start, end)
+}
+func (c *CrashDB) Iterator(start, end []byte) (db.Iterator, error) {
+	if c.name == "snap" {
+		c.wc.gateWait()
+	}
+	return c.DB.Iterator(start, end)
 }
 func (c *CrashDB) Close() error {
 	if c.keepOpen {
